@@ -124,6 +124,16 @@ CLAIMED["C15"] = dict(
     note=FS_NOTE,
 )
 
+CLAIMED["C01"] = dict(
+    engine="symx",
+    technique="symbolic execution of the real RunT/(*TestScript).run/runLine/condition/builtins from go/ssa over a file-system model, against a reference verdict evaluator; z3 decides probe outcomes, condition values and file contents",
+    text=("Scoped to the verdict engine: scripts are generated from a menu of line shapes by solver-chosen selectors; user-command outcomes, condition values, compared file contents and ContinueOnError are solver variables. "
+          "RunT, setup, the line loop, runLine, condition, parse, Fatalf/catchFailNow and the builtins stop/skip/exists/cmp/mkdir/chmod run from their SSA. Asserted against a reference evaluator: pass/fail/skip verdict, "
+          "the log names the first offending line by file and number, lines after the first failure (or behind a false condition) have no effect, ContinueOnError runs every line and still fails, the parent fails iff the script failed."),
+    design_ref="DESIGN.md §4 C01",
+    note=FS_NOTE,
+)
+
 NOT_APPLICABLE = {
     "C20": "goproxytest's behaviour lives in net/http, archive/zip+flate, encoding/json (reflection) and directory walks; none is encodable by the SSA symbolic executor, and with them stubbed nothing solver-relevant remains (its once-per-key ingredient is par.Cache = C10)",
 }
